@@ -64,6 +64,14 @@ class Gen:
         self.rng = rng
         self.k = 0
         self.events = ['E%d' % i for i in range(rng.randint(1, 4))]
+        #: events that processes trigger themselves; chained events (`src.callbacks.append(
+        #: dst.trigger)`) are triggered by their source only, but waited for like any other
+        self.plain_events = list(self.events)
+        self.chains = []
+        if rng.random() < 0.3:
+            for index in range(rng.randint(1, 2)):
+                self.chains.append([rng.choice(self.events), 'C%d' % index])
+                self.events.append('C%d' % index)
         self.procs = {}
         self.order = []
 
@@ -80,7 +88,9 @@ class Gen:
         rng = self.rng
         roll = rng.random()
         if roll < 0.45:
-            return {'m': 'event', 'ev': rng.choice(self.events)}
+            # (chained events fire in the time step of their source: as members of one
+            # condition the two would race, so conditions take self-triggered events only)
+            return {'m': 'event', 'ev': rng.choice(self.plain_events)}
         if roll < 0.8 or depth >= 1:
             return {'m': 'timeout', 'd': self.duration(), 'value': 'tv%d' % self.k}
         if roll < 0.9 and self.order:
@@ -103,10 +113,10 @@ class Gen:
                 steps.append({'op': 'cond', 'how': rng.choice(['all', 'any', 'and', 'or']),
                               'members': [self.member() for _ in range(rng.choice([0, 1, 2, 2, 3]))]})
             elif roll < 0.66:
-                steps.append({'op': 'succeed', 'ev': rng.choice(self.events), 'd': self.duration(),
+                steps.append({'op': 'succeed', 'ev': rng.choice(self.plain_events), 'd': self.duration(),
                               'value': 'sv%d' % self.k})
             elif roll < 0.72:
-                steps.append({'op': 'fail', 'ev': rng.choice(self.events), 'd': self.duration(),
+                steps.append({'op': 'fail', 'ev': rng.choice(self.plain_events), 'd': self.duration(),
                               'tag': 'x%d' % self.k})
             elif roll < 0.84 and self.order:
                 steps.append({'op': 'interrupt', 'p': rng.choice(self.order),
@@ -185,7 +195,7 @@ class Gen:
             roots.append(name)
         until = rng.choice([None, None, None, 'time', 'time', 'event'])
         self.sanitise()
-        spec = {'events': self.events, 'procs': self.procs, 'roots': roots,
+        spec = {'events': self.events, 'procs': self.procs, 'roots': roots, 'chains': self.chains,
                 'callbacks': [ev for ev in self.events if rng.random() < 0.5],
                 'initial_time': rng.choice([0, 0, 0, 4]), 'until': None}
         if until == 'time':
@@ -218,6 +228,8 @@ class World:
                 lambda event, name=name: self.callback_log.append((name, env.now)))
             self.events[name].callbacks.append(
                 lambda event, name=name: self.callback_log.append((name + '#2', env.now)))
+        for source, target in self.spec.get('chains', ()):
+            self.events[source].callbacks.append(self.events[target].trigger)
         for name in self.spec['roots']:
             self.start(name)
 
@@ -548,6 +560,7 @@ def embedded_family(case, spec, ref_world, stats):
     failing = {step['ev'] for steps in spec['procs'].values() for step in steps
                if step['op'] == 'fail'}
     # a native waiter *handles* a failure (defuses the event), which would change the program
+    failing |= {target for source, target in spec.get('chains', ()) if source in failing}
     natives = [name for name in spec['events'] if name not in failing]
     world, outcome, result, now, sess, native_log = run_usim(spec, embedded=True, natives=natives)
     stats['embedded_runs'] += 1
@@ -582,6 +595,9 @@ def embedded_family(case, spec, ref_world, stats):
             elif entry[0] == 'failed-event':
                 step = spec['procs'][name][index]
                 triggered[entry[1]] = (when, ('exception', step['tag']))
+    for source, target in spec.get('chains', ()):
+        if source in triggered:
+            triggered[target] = triggered[source]    # chained: same outcome, same time step
     seen = {name: (when, what) for name, when, what in native_log}
     for name, expected in triggered.items():
         if name not in natives:
